@@ -789,6 +789,10 @@ def builtin(I, name, a, kwargs, node, _no_override=False):
     if name == "object":
         return Sentinel(f"sentinel{id(node)}")
     if name == "type":
+        if len(a) == 1 and not kwargs:
+            tn = type_name(a[0])
+            if tn is not None and (isinstance(a[0], (Const, DictS, ListLit, ListOf, TupS, SetS)) or isinstance(a[0], Leaf)):
+                return Fn("lib", name=f"builtins.{tn}")
         return Top("type()")
     if name == "callable":
         return Const(isinstance(a[0], Fn))
